@@ -22,7 +22,9 @@ ALIAS_FUNCS = {"np.asarray", "np.ascontiguousarray", "np.swapaxes", "np.transpos
 ARRAY_INPLACE_METHODS = {"sort", "fill", "resize", "put", "itemset", "partition",
                          "setfield", "eliminate_zeros", "setdiag", "sort_indices"}
 INPLACE_FUNCS_ARG0 = {"np.fill_diagonal", "np.put", "np.copyto", "np.place",
-                      "np.putmask", "random.shuffle", "np.random.shuffle", "shuffle"}
+                      "np.putmask", "random.shuffle", "np.random.shuffle", "shuffle",
+                      "np.ndarray.sort", "numpy.ndarray.sort", "np.ndarray.fill",
+                      "list.sort", "numpy.random.shuffle"}
 ARRAYISH_ATTRS = {"shape", "mean", "max", "min", "astype", "sum", "T", "copy", "std",
                   "flatten", "reshape", "dtype", "ndim", "size", "transpose", "argsort",
                   "conjugate", "dot", "any", "all", "argmax", "argmin", "ravel",
@@ -342,8 +344,16 @@ class FuncAnalysis:
         # the base of a store may itself be a basic slice / view chain; `a[i][j] =
         # v` with i an integer loop counter stores into the row view a[i]
         b = base
-        while not o and isinstance(b, ast.Subscript) and isinstance(b.slice, ast.Name) \
-                and b.slice.id in self._range_loop_vars():
+        def counter_index(sl):
+            # an integer loop counter, alone or next to basic slices: a view
+            if isinstance(sl, ast.Name):
+                return sl.id in self._range_loop_vars()
+            if isinstance(sl, ast.Tuple):
+                return any(isinstance(x, ast.Name) for x in sl.elts) and all(
+                    counter_index(x) if isinstance(x, ast.Name) else _basic_slice(x)
+                    for x in sl.elts)
+            return False
+        while not o and isinstance(b, ast.Subscript) and counter_index(b.slice):
             b = b.value
             o = self.origins(b)
         if not o:
